@@ -340,18 +340,20 @@ func (seg *Segmenter) splitByScript() {
 					// this is a close character : try to look backward in the stack
 					// for its counterpart
 					counterPartIndex := openingDelimIndex(delimIndex)
-					j := len(seg.delimStack) - 1
-					for ; j >= 0; j-- {
-						if seg.delimStack[j].index == counterPartIndex { // found a match, use its script
+					// (the depth of the search is bounded, so that a text made of unmatched
+					// delimiters is still handled in linear time)
+					const maxDelimDepth = 32
+					L := len(seg.delimStack)
+					for j := L - 1; j >= 0 && j >= L-maxDelimDepth; j-- {
+						if seg.delimStack[j].index == counterPartIndex {
+							// found a match, use its script and pop the open characters
 							rScript = seg.delimStack[j].script
+							seg.delimStack = seg.delimStack[:j]
 							break
 						}
 					}
-					// in any case, pop the open characters
-					if j == -1 {
-						j = 0
-					}
-					seg.delimStack = seg.delimStack[:j]
+					// a close character without counterpart is ignored: the delimiters
+					// already opened still wait for their own
 				}
 			}
 
@@ -361,11 +363,10 @@ func (seg *Segmenter) splitByScript() {
 				continue
 			} else if currentInput.Script == language.Common {
 				// update the pair stack to attribute the resolved script
-				// (leaving alone the delimiters opened in a previous run, which are already resolved)
-				for i := range seg.delimStack {
-					if seg.delimStack[i].script == language.Common {
-						seg.delimStack[i].script = rScript
-					}
+				// (leaving alone the delimiters opened in a previous run, which are already resolved:
+				// the unresolved ones are always at the top of the stack)
+				for i := len(seg.delimStack) - 1; i >= 0 && seg.delimStack[i].script == language.Common; i-- {
+					seg.delimStack[i].script = rScript
 				}
 				// set the resolved script to the current run,
 				// but do NOT create a new run
